@@ -172,3 +172,33 @@ Theorem C16_safe_run_b_sound : forall cfg ls n st seen,
   safe_run_b cfg ls n st seen = true -> safe_run cfg ls n st seen.
 Proof. exact safe_run_b_sound. Qed.
 Print Assumptions C16_safe_run_b_sound.
+
+(* "rewrites ONLY the mismatching entries": when no cmp recorded an update the file is not
+   written at all, whatever its text -- canonical for txtar.Format or not *)
+Theorem C16_no_update_no_write : forall cfg work env file,
+  s_updates (r_final (run_file cfg work env file)) = [] ->
+  f_change (run_file_full cfg work env file) = Untouched
+  /\ f_run (run_file_full cfg work env file) = run_file cfg work env file.
+Proof. exact no_update_no_write. Qed.
+Print Assumptions C16_no_update_no_write.
+
+Theorem C16_write_only_on_update : forall cfg work env file d,
+  f_change (run_file_full cfg work env file) = Rewritten d ->
+  s_updates (r_final (run_file cfg work env file)) <> [].
+Proof. exact write_only_on_update. Qed.
+Print Assumptions C16_write_only_on_update.
+
+(* what is written is the canonical text of the updated archive ... *)
+Theorem C16_update_written_canonical : forall file U d,
+  (forall n d0 c, In (n, d0) (files (parse file)) -> assoc_get U n = Some c -> c = [] \/ last_byte c = Some NL) ->
+  change_of (parse file) U = Rewritten d -> format (parse d) = d.
+Proof. exact update_written_canonical. Qed.
+Print Assumptions C16_update_written_canonical.
+
+(* ... so the SPELLING of untouched entries in a file that was not canonical (blanks in a marker
+   line, CR LF behind it, no final newline) does not survive an update of another entry: the
+   byte-level reading of "every other entry stays unchanged" is refuted by a witness; the parsed
+   entries do stay unchanged (C16_update_frame) *)
+Theorem C16_update_keeps_untouched_bytes_refuted : ~ update_keeps_untouched_bytes_statement.
+Proof. exact update_keeps_untouched_bytes_refuted. Qed.
+Print Assumptions C16_update_keeps_untouched_bytes_refuted.
